@@ -193,3 +193,91 @@ Theorem C11_upstream_port_cut_from_host_refuted :
     ~ (colon + 1 <= hostStart + k))%Z.
 Proof. exact upstream_port_cut_from_host_refuted. Qed.
 Print Assumptions C11_upstream_port_cut_from_host_refuted.
+
+(* ---- a rejected setup leaves nothing behind that a later setup trips over (sequences of loads in ONE process) ----
+   Over the executeDirectives model, for EVERY setup function, callback, sequence of configurations (validated or
+   started, accepted or REJECTED at any point) and configuration loaded after them.  The state a setup sees is
+   (process-global part, part of the load being made); every load starts from a fresh second part and from the
+   global part the loads before it left.  If setups and callbacks cannot tell apart global states related by [R]
+   and leave the global part as they found it up to [R] WHATEVER THEY ANSWER (on every error path: the mutex taken
+   is released, the table is not half-written), then a configuration is accepted after any sequence of loads
+   exactly when it is accepted alone, and builds the same thing.  The harness checks the conclusion on the real
+   setup functions: for every registered directive a rejected configuration followed by accepted ones of the same
+   and of other directives, in one child process, every step against the same configuration loaded alone. *)
+Theorem C11_outcome_after_any_loads :
+  forall (A G L : Type) (setup : bytes -> nat -> nat -> bytes -> list A -> G * L -> C09_Model.outcome (G * L))
+         (callback : bytes -> G * L -> C09_Model.outcome (G * L)) (R : G -> G -> Prop),
+  (forall g, R g g) -> (forall a b c, R a b -> R b c -> R a c) ->
+  (forall d i j k t s1 s2, RL R s1 s2 -> orel (RL R) (RL R) (setup d i j k t s1) (setup d i j k t s2)) ->
+  (forall d s1 s2, RL R s1 s2 -> orel (RL R) (RL R) (callback d s1) (callback d s2)) ->
+  (forall d i j k t s, R (fst s) (fst (C09_Model.out_state (setup d i j k t s)))) ->
+  (forall d s, R (fst s) (fst (C09_Model.out_state (callback d s)))) ->
+  forall (l0 : L) (cs : list (@conf A)) (g : G) (c : @conf A),
+  C09_Model.out_ok (load setup callback l0 c (after_loads setup callback l0 cs g)) = C09_Model.out_ok (load setup callback l0 c g) /\
+  R (fst (C09_Model.out_state (load setup callback l0 c g)))
+    (fst (C09_Model.out_state (load setup callback l0 c (after_loads setup callback l0 cs g)))) /\
+  snd (C09_Model.out_state (load setup callback l0 c (after_loads setup callback l0 cs g))) =
+  snd (C09_Model.out_state (load setup callback l0 c g)).
+Proof. exact @outcome_after_any_loads. Qed.
+Print Assumptions C11_outcome_after_any_loads.
+
+(* the hypotheses are satisfiable by something that is not trivial: setups that extend a process-global table
+   before they look at their tokens (and reject a token 7 after the table was written); the table after a rejected
+   load differs from the table before, the configuration loaded next is accepted as it is alone *)
+Example C11_outcome_after_any_loads_nonvacuous :
+  let R := fun _ _ : list N => True in
+  (forall d i j k t s1 s2, RL R s1 s2 -> orel (RL R) (RL R) (seq_setup d i j k t s1) (seq_setup d i j k t s2)) /\
+  (forall d i j k t s, R (fst s) (fst (C09_Model.out_state (seq_setup d i j k t s)))) /\
+  let bad : @conf N := (false, [[100%N]], [([[1%N]], [([100%N], [7%N])])]) in
+  let good : @conf N := (true, [[100%N]], [([[1%N]; [2%N]], [([100%N], [0%N])])]) in
+  C09_Model.out_ok (load seq_setup seq_callback 0%nat bad []) = false /\
+  after_loads seq_setup seq_callback 0%nat [bad] [] = [7%N] /\
+  C09_Model.out_ok (load seq_setup seq_callback 0%nat good (after_loads seq_setup seq_callback 0%nat [bad] [])) = true.
+Proof.
+  cbn zeta. split; [|split; [|split; [|split]]].
+  - intros d i j k t [g1 l1] [g2 l2] [_ E]. cbn in E. subst l2. unfold seq_setup. cbn [fst snd].
+    destruct (existsb (N.eqb 7) t); cbn; unfold RL; cbn; auto.
+  - intros; exact I.
+  - vm_compute. reflexivity.
+  - vm_compute. reflexivity.
+  - vm_compute. reflexivity.
+Qed.
+
+(* Without the frame hypothesis the statement is false: an error path that returns with a process-global mutex held
+   (the global part is the mutex; a setup that meets it held does not get through) - the configuration that is
+   accepted alone is not accepted after the rejected one. *)
+Theorem C11_lock_left_held_refuted :
+  exists (bad good : @conf N),
+    C09_Model.out_ok (load lock_setup lock_callback 0%nat good false) = true /\
+    C09_Model.out_ok (load lock_setup lock_callback 0%nat bad false) = false /\
+    C09_Model.out_ok (load lock_setup lock_callback 0%nat good (after_loads lock_setup lock_callback 0%nat [bad] false)) = false.
+Proof. exact lock_left_held_refuted. Qed.
+Print Assumptions C11_lock_left_held_refuted.
+
+(* The one process-global resource a setup function of the tree takes and must give back - the mutex of the
+   htpasswd table of basicauth (C08_Model.get_matcher, the model of GetHtpasswdMatcher) - is free again on EVERY
+   path (file missing, file that does not parse, user not found, success), and the call itself never waits: so the
+   next `basicauth ... htpasswd=` rule of the process, whatever file and user it names, does not block. *)
+Theorem C11_htpasswd_lock_released_on_every_path :
+  forall e g f u r g' o,
+  C08_Model.g_htlock g = false -> C08_Model.get_matcher e g f u = (r, g', o) ->
+  r <> C08_Model.RHang /\ C08_Model.g_htlock g' = false.
+Proof. exact htpasswd_lock_released. Qed.
+Print Assumptions C11_htpasswd_lock_released_on_every_path.
+
+Theorem C11_htpasswd_rule_after_a_rejected_one_never_blocks :
+  forall e1 e2 g f1 u1 f2 u2 r1 g1 o1,
+  C08_Model.g_htlock g = false -> C08_Model.get_matcher e1 g f1 u1 = (r1, g1, o1) ->
+  fst (fst (C08_Model.get_matcher e2 g1 f2 u2)) <> C08_Model.RHang.
+Proof. exact htpasswd_lock_released_twice. Qed.
+Print Assumptions C11_htpasswd_rule_after_a_rejected_one_never_blocks.
+
+Example C11_htpasswd_rule_after_a_rejected_one_nonvacuous :
+  let damaged := {| C08_Model.h_present := true; C08_Model.h_users := [(2, 1)%N]; C08_Model.h_bad := true; C08_Model.h_after := [(1, 1)%N] |} in
+  let good := {| C08_Model.h_present := true; C08_Model.h_users := [(1, 1)%N]; C08_Model.h_bad := false; C08_Model.h_after := [] |} in
+  exists g1, C08_Model.get_matcher [(1%N, damaged)] C08_Model.g0 1%N 1%N = (C08_Model.RErr, g1, None) /\
+             fst (fst (C08_Model.get_matcher [(1%N, good)] g1 1%N 1%N)) = C08_Model.ROk /\
+             (* the error path that keeps the mutex (the code before the repair of F-C08-lock; a seeded change brings it back) *)
+             exists g2, C08_Model.get_matcher_gen false [(1%N, damaged)] C08_Model.g0 1%N 1%N = (C08_Model.RErr, g2, None) /\
+                        fst (fst (C08_Model.get_matcher_gen false [(1%N, good)] g2 1%N 1%N)) = C08_Model.RHang.
+Proof. eexists. split; [vm_compute; reflexivity|]. split; [vm_compute; reflexivity|]. eexists. split; vm_compute; reflexivity. Qed.
